@@ -25,14 +25,21 @@ for d in sorted(glob.glob(os.path.join(ROOT, "seeded", "C*-*")), key=lambda p: (
     if want and pid not in want: continue
     mp = os.path.join(d, "meta.json")
     meta = json.load(open(mp)) if os.path.exists(mp) else {}
-    def run(base=None):
-        cmd = [os.path.join(ROOT, "tools", "seedtest.sh"), pid, os.path.join(d, "patch.diff")] + ([base] if base else [])
+    def run(base=None, patch="patch.diff"):
+        cmd = [os.path.join(ROOT, "tools", "seedtest.sh"), pid, os.path.join(d, patch)] + ([base] if base else [])
         env = dict(os.environ)
         if base:
             env["VERIF_DEV"] = "1"   # an older /repo commit may lack hooks other properties' harness files need: build this property only
         return subprocess.run(cmd, capture_output=True, text=True, env=env).stdout
     out = run()
     used_base = "HEAD"
+    if "PATCH-DOES-NOT-APPLY" in out:
+        # the same change ported by hand onto a later /repo (later fix: commits rewrote its context)
+        for pp in sorted(glob.glob(os.path.join(d, "patch_ported_*.diff")), key=os.path.getmtime, reverse=True):
+            o2 = run(patch=os.path.basename(pp))
+            if "PATCH-DOES-NOT-APPLY" not in o2:
+                out = o2; used_base = "HEAD (" + os.path.basename(pp) + ")"
+                break
     if "PATCH-DOES-NOT-APPLY" in out and not meta.get("base"):
         meta["base"] = find_base(os.path.join(d, "patch.diff")) or ""
     if "PATCH-DOES-NOT-APPLY" in out and meta.get("base"):
